@@ -295,6 +295,8 @@ def eval_expr (repo, module, e, env, cls=None):
       if op is ast.LShift: return a << b
       if op is ast.RShift: return a >> b
       if op is ast.Mult: return a * b
+      if op is ast.Mod and isinstance(a, (str, bytes, int)): return a % b
+      if op is ast.FloorDiv: return a // b
     except Exception: raise _Unknown()
   if isinstance(e, ast.Compare):
     left = eval_expr(repo, module, e.left, env, cls)
@@ -473,8 +475,11 @@ def _eval_call (repo, module, e, env, cls):
     if fn.id == 'type' and len(args) == 1: return type(args[0])
     if fn.id == 'isinstance' and len(args) == 2: return isinstance(args[0], args[1])
     if fn.id == 'bool' and len(args) == 1: return bool(args[0])
-    if fn.id in ('list', 'tuple', 'set', 'sorted', 'str', 'int') and len(args) == 1:
-      try: return {'list': list, 'tuple': tuple, 'set': set, 'sorted': sorted, 'str': str, 'int': int}[fn.id](args[0])
+    if fn.id in ('list', 'tuple', 'set', 'sorted', 'str', 'int', 'hex', 'oct', 'bin', 'chr', 'ord', 'bytes', 'abs', 'min', 'max', 'sum', 'reversed') and len(args) == 1:
+      if any(a is OPAQUE for a in args): raise _Unknown()
+      try:
+        r_ = {'list': list, 'tuple': tuple, 'set': set, 'sorted': sorted, 'str': str, 'int': int, 'hex': hex, 'oct': oct, 'bin': bin, 'chr': chr, 'ord': ord, 'bytes': bytes, 'abs': abs, 'min': min, 'max': max, 'sum': sum, 'reversed': lambda x: list(reversed(x))}[fn.id](args[0])
+        return r_
       except Exception: raise _Unknown()
     if fn.id in ('all', 'any') and len(args) == 1:
       try: vals = list(args[0])
